@@ -151,12 +151,22 @@ Definition global_scope (s : st) : scope := last (scopes s) [].
 
 (* the walk of _check_in_scope / _get_from_visible_scope in block scope:
    zip(reversed(scope), reversed(context)); stop at the first non-BLOCK context *)
-Fixpoint block_walk (x : string) (zs : list (scope * ctx)) : option var :=
+Definition global_const (x : string) (g : scope) : option var :=
+  match sget x g with
+  | Some v => if v_const v then Some v else None
+  | None => None
+  end.
+
+Fixpoint block_walk (x : string) (g : scope) (zs : list (scope * ctx)) : option var :=
   match zs with
   | [] => None
   | (sc, c) :: zs' =>
-      if negb (ctx_eqb c CBlock) then sget x sc
-      else match sget x sc with Some v => Some v | None => block_walk x zs' end
+      if negb (ctx_eqb c CBlock) then
+        match sget x sc with
+        | Some v => Some v
+        | None => if ctx_eqb c CGlobal then None else global_const x g   (* a body's block sees what the body sees *)
+        end
+      else match sget x sc with Some v => Some v | None => block_walk x g zs' end
   end.
 
 Definition get_visible (s : st) (x : string) : option var :=
@@ -174,7 +184,7 @@ Definition get_visible (s : st) (x : string) : option var :=
       else None in
     match r1 with
     | Some v => Some v
-    | None => if in_block s then block_walk x (combine (scopes s) (ctxs s)) else None
+    | None => if in_block s then block_walk x (global_scope s) (combine (scopes s) (ctxs s)) else None
     end.
 
 (* _check_in_scope has the same structure and agrees with get_visible on being found *)
